@@ -289,6 +289,32 @@ static void limit_space (long start, long *pidx)
     { char k_[260]; snprintf (k_, sizeof k_, "C14|crash|%s", sig); v_case (idx, k_, sig); }
     one_case (text, sig, 0, 1);
   }
+  /* directive lines of exactly 2..20 tokens that END in a keyword which expects a value (.n mult/min/max, .source/.dest
+   * align): the value is missing, at every position of the token table */
+  {
+    static const char *heads[] = { ".n", ".n", ".n", ".source 2 s2", ".dest 2 d2" };
+    static const char *kws[] = { "mult", "min", "max", "align", "align" };
+    static const char *vals[] = { "4", "8", "64", "2", "2" };
+    int h, nt;
+    for (h = 0; h < 5; h++) for (nt = 2; nt <= 20; nt++) {
+      long idx = (*pidx)++;
+      size_t o = 0;
+      char sig[64];
+      int have, first = 1;
+      if (idx < start || (idx % cfg.nshards) != cfg.shard) continue;
+      o += sprintf (text + o, ".function kwend\n.source 2 s1\n.dest 2 d1\n%s", heads[h]);
+      have = h < 3 ? 1 : 3;
+      if (have >= nt) continue;
+      /* pairs "keyword value" while two more tokens fit before the final keyword */
+      while (have + 2 < nt) { o += sprintf (text + o, " %s %s", kws[h], vals[h]); have += 2; first = 0; }
+      if (have + 1 < nt) { o += sprintf (text + o, " %s", h < 3 ? vals[h] : "x"); have++; }	/* odd filler token */
+      o += sprintf (text + o, " %s\ncopyw d1, s1\n", kws[h]);
+      (void) first;
+      snprintf (sig, sizeof (sig), "tokens=%d/ends-in-%s/%s", nt, kws[h], h < 3 ? ".n" : h == 3 ? ".source" : ".dest");
+      { char k_[260]; snprintf (k_, sizeof k_, "C14|crash|%s", sig); v_case (idx, k_, sig); }
+      one_case (text, sig, 0, 1);
+    }
+  }
   /* many tokens on a directive and on an opcode line; very long token */
   for (a = 0; a < 6; a++) for (c = 0; c < 2; c++) {
     long idx = (*pidx)++;
